@@ -44,9 +44,8 @@ def write_log(path, layout, container="plain"):
         with open(path, "wb") as f:
             f.write(bz2.compress(data, 1))
     elif container == "lz4":
-        p = subprocess.run(["lz4", "-q", "-f", "-1", "-", path], input=data, stdout=subprocess.DEVNULL, stderr=subprocess.DEVNULL)
-        if p.returncode != 0:
-            raise RuntimeError("lz4 failed")
+        with open(path, "wb") as f:
+            f.write(lz4_frame_stored(data))
     else:
         raise ValueError(container)
     return len(data)
@@ -55,11 +54,56 @@ def write_log(path, layout, container="plain"):
 EXT = {"plain": ".log", "gz": ".log.gz", "bz2": ".log.bz2", "lz4": ".log.lz4"}
 
 
+def _xxh32(data, seed=0):
+    P1, P2, P3, P4, P5 = 2654435761, 2246822519, 3266489917, 668265263, 374761393
+    M = 0xFFFFFFFF
+
+    def rotl(x, r):
+        return ((x << r) | (x >> (32 - r))) & M
+    n = len(data)
+    i = 0
+    if n >= 16:
+        v = [(seed + P1 + P2) & M, (seed + P2) & M, seed & M, (seed - P1) & M]
+        while i + 16 <= n:
+            for k in range(4):
+                w = int.from_bytes(data[i:i + 4], "little")
+                v[k] = (rotl((v[k] + w * P2) & M, 13) * P1) & M
+                i += 4
+        h = (rotl(v[0], 1) + rotl(v[1], 7) + rotl(v[2], 12) + rotl(v[3], 18)) & M
+    else:
+        h = (seed + P5) & M
+    h = (h + n) & M
+    while i + 4 <= n:
+        h = (rotl((h + int.from_bytes(data[i:i + 4], "little") * P3) & M, 17) * P4) & M
+        i += 4
+    while i < n:
+        h = (rotl((h + data[i] * P5) & M, 11) * P1) & M
+        i += 1
+    h ^= h >> 15
+    h = (h * P2) & M
+    h ^= h >> 13
+    h = (h * P3) & M
+    h ^= h >> 16
+    return h
+
+
+def lz4_frame_stored(data):
+    """an LZ4 frame (format 1.6) whose blocks are stored uncompressed: no lz4 encoder is installed,
+    and for C17 only the container kind matters (the reader streams it through lz4_flex's FrameDecoder)"""
+    flg = (1 << 6) | (1 << 5) | (1 << 3)          # version 01, independent blocks, content size present
+    bd = 4 << 4                                   # 64 KiB maximum block size
+    desc = bytes([flg, bd]) + len(data).to_bytes(8, "little")
+    out = [b"\x04\x22\x4d\x18", desc, bytes([(_xxh32(desc) >> 8) & 0xFF])]
+    for i in range(0, len(data), 65536):
+        blk = data[i:i + 65536]
+        out.append((len(blk) | 0x80000000).to_bytes(4, "little"))
+        out.append(blk)
+    out.append(b"\x00\x00\x00\x00")
+    return b"".join(out)
+
+
 def have_lz4():
-    try:
-        return subprocess.run(["lz4", "--version"], stdout=subprocess.DEVNULL, stderr=subprocess.DEVNULL).returncode == 0
-    except OSError:
-        return False
+    return True
 
 
 _NUM = {
@@ -131,4 +175,55 @@ def edge_lines(layout, bs):
         off += ln
         if off % bs == 0 and i != len(layout) - 1:
             out.append(i)
+    return out
+
+
+def msg_spans(layout, bs):
+    """[(first block, last block)] per message"""
+    sp = line_spans(layout, bs)
+    return [(sp[a][0], sp[b][1]) for a, b in messages(layout)]
+
+
+def min_drop_distance(layout, bs):
+    """the smallest k - m over all messages m and the worker iteration k at which drop_data_try
+    first reaches m (last_block(m) <= first_block(k-1) - 2, first_block(k-1) >= 3, k >= 2, k not the
+    last message).  None when no message is ever reached.  (transliteration of Model/Retain.v)"""
+    ms = msg_spans(layout, bs)
+    n = len(ms)
+    best = None
+    nxt = 0            # messages < nxt were reached already
+    for k in range(2, n - 1):
+        f = ms[k - 1][0]
+        if f < 3:
+            continue
+        bo = f - 2
+        while nxt <= k and ms[nxt][1] <= bo:
+            d = k - nxt
+            best = d if best is None else min(best, d)
+            nxt += 1
+    return best
+
+
+def consumer_lag_exceeds_drop_distance(layout, bs, H):
+    """KNOWN-FINDING class F9a: some message can still be referenced by the consumer side (which may
+    be up to H = cap + 2 messages behind, the one just sent included) when drop_data_try reaches it:
+    k - m < H for some reached message m.  Equivalent to `derr > 0` in the model run with lag H."""
+    d = min_drop_distance(layout, bs)
+    return d is not None and d < H
+
+
+def line_ends_on_block_edge(layout, bs, container):
+    """KNOWN-FINDING class F9b: plain file with a line (not the last) whose last byte is the last byte of a block"""
+    return container == "plain" and len(edge_lines(layout, bs)) > 0
+
+
+def avoid_edges(layout, bs):
+    """lengthen lines by one byte where needed so that no line ends on a block edge"""
+    out = []
+    off = 0
+    for ln, dated in layout:
+        if (off + ln) % bs == 0:
+            ln += 1
+        out.append((ln, dated))
+        off += ln
     return out
